@@ -49,8 +49,14 @@ package gtprovider
 //@   ensures foralls(k, has(provider.views, k) == old(has(provider.views, k)) && provider.views[k] == old(provider.views[k]))
 //@   ensures mapAt(provider.views, ref(provider.views), 0) == old(mapAt(provider.views, ref(provider.views), 0))
 //@   requires provider.fs != nil && provider.layouts != nil
+// The cache key of a view must determine the (layout, view) pair: two different pairs under
+// one key would hand out one pair's template for the other (cached != uncached). The key is the
+// length-prefixed encoding len(layout) ":" layout ":" view, which is injective for all names
+// (a plain layout ":" view is not: ("a:b","c") and ("a","b:c")).
+//@ define ViewKey(l string, v string) string = cat(cat(cat(cat(strconv.Itoa(len(l)), ":"), l), ":"), v)
 //@ func (*Provider).View [C19]
 //@   layers contract lock
+//@   at_call (*Provider).view requires $3 == ViewKey($1, $2)
 //@   requires provider.fs != nil && provider.views != nil && provider.layouts != nil && ref(provider.views) != ref(provider.layouts)
 
 // base: helper definitions are parsed into a new template; the cached value is the returned one
